@@ -12,7 +12,7 @@ for n in 1 2 3; do
   git checkout -q -- .
   echo "clean demo rc=$c0; patched tests: $t; patched demo rc=$c1"
   case "$t" in *"133 passed"*) ok=1;; *) ok=0;; esac
-  if [ $c0 = 0 ] && [ $c1 = 1 ] && [ $ok = 1 ] && ! echo "$t" | grep -q failed; then
+  if [ $c0 = 0 ] && [ $c1 = 1 ] && [ $ok = 1 ] && ! echo "$t" | grep -Eq '[0-9]+ (failed|error)'; then
     mkdir -p /verif/seeded/$ID-$n; cp $D/patch.diff $D/demo.py $D/note.md /verif/seeded/$ID-$n/
     python3 - <<PY
 import json
